@@ -17,6 +17,7 @@ FALSY = ["zero", "emptystr", "emptylist", "emptytuple", "false", "emptyset"]    
 MAPPINGS = ["userdict", "proxy", "odict"]                                          # not dicts, behave like dicts
 NONDICT = ["list", "tuple", "str", "int", "set", "gen"]                            # truthy, no .keys(): AttributeError
 MUTS = ["del", "add", "relabel", "clear"]
+SCHEMES = ["dot", "colon", "slash", "under", "arrow", "space", "dash", "int", "tuple", "case"]
 
 EXC = ["RuntimeError", "TypeError", "ValueError", "KeyError", "AttributeError", "WiringError", "ZeroDivisionError"]
 
@@ -42,7 +43,7 @@ class C16(Prop):
     all_branches = (["mod:ok", "mod:moduleExists", "wire:ok", "wire:unknownOutputPort", "wire:unknownInputPort",
                      "wire:typeMismatch", "wire:integrityViolation", "rawwire", "handler:ret", "handler:retnone",
                      "handler:raise", "handler:xraise", "handler:retd", "handler:retv", "handler:unknownModule",
-                     "handler:retobj", "handler:reenter", "handler:mut", "handler2", "exec2"] + EDIT_TAGS + [ "ext", "caps",
+                     "handler:retobj", "handler:reenter", "handler:mut", "handler2", "exec2", "names"] + EDIT_TAGS + [ "ext", "caps",
                      "caps2", "capsmut", "speccaps", "share:ok", "share:moduleExists", "mod2:ok", "flow:ok", "flow:typeMismatch",
                      "flow:integrityViolation", "exec:ok"]
                     # the per-delivery "Multiple values" guard is unreachable since fix 56841f4 (two wires into one port and
@@ -240,6 +241,8 @@ class C16(Prop):
             lines += self._caps_history(rng, names)
         if rng.random() < 0.2:
             lines.append(f"flow {rng.randrange(nD)} {rng.randrange(nI)} {rng.randrange(nD)} {rng.randrange(nI)}")
+        if rng.random() < 0.25:
+            lines.insert(0, "names " + rng.choice(SCHEMES))
         return {"lines": lines, "note": "wild" if wild else "mostly-valid"}
 
     def _spec_edits(self, rng, names, ins, outs, wires):
@@ -487,6 +490,20 @@ class C16(Prop):
                               "note": "two executors on one diagram"})
         spaces.append({"name": "two executors on one diagram: the second with every subset of handlers (other payloads), runs "
                                "interleaved, first executor complete or growing", "cases": cases})
+        # K: naming schemes under which (module 0, port 1) and (module 1, port 0) glue to the same string
+        cases = []
+        for sch in SCHEMES + ["plain"]:
+            for enf in ("1", "0"):
+                base = [f"names {sch}", "mod 0 I 1:0:0 O C", "mod 1 I 0:0:1 O C", "mod 2 I O 0:0:1 1:0:1 C"]
+                cases.append({"lines": base + ["wire 2 0 0 1", "wire 2 1 1 0", "handler 2 ret 0:raw:4 1:raw:5", f"exec {enf}", "caps"],
+                              "note": "colliding names"})
+                cases.append({"lines": base + ["wire 2 0 0 1", "ext 1 0 raw 9", "handler 2 ret 0:raw:4 1:raw:5", f"exec {enf}"],
+                              "note": "colliding names"})
+                cases.append({"lines": base + ["wire 2 1 1 0", "ext 0 1 typed 0 1 9", "handler 2 ret 0:raw:4 1:typed:0:1:5",
+                                               "handler 0 ret", "handler 1 mut add", f"exec {enf}", "setin 0 1 0 2", f"exec {enf}"],
+                              "note": "colliding names"})
+        spaces.append({"name": "naming schemes (separators, ints, tuples, empty / blank / case / unicode-normalisation variants) under "
+                               "which distinct (module, port) pairs glue to one string: two wires, wire + external", "cases": cases})
         # D: a source module (no inputs) and a module with an input, each with every raising adversary
         cases = []
         for cls in EXC:
@@ -578,9 +595,39 @@ class C16(Prop):
         ext: dict = {}
         calls: list = []
         obs, extra = [], []
-        mname = lambda n: f"m{n}"
-        pname = lambda p: f"p{p}"
-        unm = lambda s: int(s[1:])
+        # how module / port numbers become Python names: `names S` as the first line of a case picks a scheme whose names
+        # collide when a module name and a port name are glued together with a separator ("x.y" + "y" vs "x" + "y.y"), are
+        # not strings at all, are empty, or differ only in case / surrounding blanks
+        scheme = "plain"
+        if case["lines"] and case["lines"][0].split()[:1] == ["names"] and len(case["lines"][0].split()) == 2:
+            scheme = case["lines"][0].split()[1]
+        seps = {"dot": ".", "colon": ":", "slash": "/", "under": "_", "arrow": "->", "space": " ", "dash": "-"}
+        if scheme in seps:
+            sp = seps[scheme]
+            mname = lambda n: "x" + (sp + "y") * n
+            pname = lambda p: "y" + (sp + "y") * p
+        elif scheme == "int":
+            mname = lambda n: n
+            pname = lambda p: p
+        elif scheme == "tuple":
+            mname = lambda n: ("m", n)
+            pname = lambda p: ("p", p)
+        elif scheme == "case":
+            mname = lambda n: ["", " ", "a", "A", "a ", " a", "ä", "a\u0308", "0", "00"][n % 10] + "#" * (n // 10)
+            pname = lambda p: ["", " ", "a", "A", "a ", " a", "ä", "a\u0308", "0", "00"][p % 10] + "#" * (p // 10)
+        else:
+            mname = lambda n: f"m{n}"
+            pname = lambda p: f"p{p}"
+        rev_m = {mname(n): n for n in range(100)}
+        rev_p = {pname(q): q for q in range(100)}
+        rev_p["p99"] = 99        # the key a mutating handler adds to its dict
+
+        class _Un:
+            """name -> number, for module names (.m) and port names (.p)"""
+            m = staticmethod(lambda x: rev_m.get(x, -1))
+            p = staticmethod(lambda x: rev_p.get(x, -1))
+        unm = _Un.m
+        unp = _Un.p
         in_range = lambda dt, il: 0 <= dt < self.nD and 0 <= il < self.nI
 
         excs = {"WiringError": W.WiringError}
@@ -594,7 +641,7 @@ class C16(Prop):
         def mk_handler(n, kind, entries, fail=None, sig="1", obj=None, mut=None, exe=None):
             def body(inputs):
                 real = inputs if inputs is not None else {}
-                snap = {unm(p): self._tv(tv) for p, tv in real.items()}
+                snap = {unp(p): self._tv(tv) for p, tv in real.items()}
                 log = calls if depth[0] == 0 else inner_calls
                 log.append((n, snap))
                 if len(log) > 200:
@@ -668,7 +715,9 @@ class C16(Prop):
             x = None
             try:
                 op = t[0]
-                if op in ("mod", "mod2"):
+                if op == "names" and len(t) == 2:
+                    o = "ok"
+                elif op in ("mod", "mod2"):
                     rest = t[2:]
                     iI, iO, iC = rest.index("I"), rest.index("O"), rest.index("C")
                     pp = lambda ts: {pname(int(a)): self._pt(int(b), int(c)) for a, b, c in (z.split(":") for z in ts)}
@@ -778,8 +827,8 @@ class C16(Prop):
                     else:
                         rep = val
                         order = [unm(m) for m in rep.execution_order]
-                        mods = [(unm(m), {unm(p): self._tv(v) for p, v in me.inputs.items()},
-                                 {unm(p): self._tv(v) for p, v in me.outputs.items()}) for m, me in rep.modules.items()]
+                        mods = [(unm(m), {unp(p): self._tv(v) for p, v in me.inputs.items()},
+                                 {unp(p): self._tv(v) for p, v in me.outputs.items()}) for m, me in rep.modules.items()]
                         x.update(status="ok", order=order, mods=mods)
                         istr = ""
                         if inner_stat:
